@@ -27,10 +27,27 @@ fn section_lists(maxlen: usize) -> Vec<Vec<u32>> {
     out
 }
 
+thread_local! {
+    /// When set, the authority records of the replies built on this thread are SOA records with
+    /// this MINIMUM field (a negative answer as an authoritative server or a resolver that does not
+    /// lower the SOA TTL itself sends it): the record's own TTL is what ages, whatever MINIMUM says.
+    static SOA_MIN: std::cell::Cell<Option<u32>> = const { std::cell::Cell::new(None) };
+}
+
 fn mk_reply(q: &rd::Name, an: &[u32], ns: &[u32], ar: &[u32]) -> dnspkt::DNSPkt {
     let mut p = crate::checks::c14::base_pkt(q);
     let rr = |ttl: u32, i: usize| rd::rr_to_erbium(&Rr { name: q.clone(), rtype: rd::T_A, class: 1, ttl, rdata: rd::Rdata::Raw(vec![10, 0, 0, i as u8]) });
     p.answer = an.iter().enumerate().map(|(i, t)| rr(*t, i)).collect();
+    if let Some(min) = SOA_MIN.with(|c| c.get()) {
+        let zone = rd::name("example.com");
+        p.nameserver = ns
+            .iter()
+            .enumerate()
+            .map(|(i, t)| rd::rr_to_erbium(&Rr { name: zone.clone(), rtype: rd::T_SOA, class: 1, ttl: *t, rdata: rd::Rdata::Soa(rd::name("ns.example.com"), rd::name("hostmaster.example.com"), [2024 + i as u32, 7200, 900, 1_209_600, min]) }))
+            .collect();
+        p.additional = ar.iter().enumerate().map(|(i, t)| rr(*t, 20 + i)).collect();
+        return p;
+    }
     p.nameserver = ns.iter().enumerate().map(|(i, t)| rr(*t, 10 + i)).collect();
     p.additional = ar.iter().enumerate().map(|(i, t)| rr(*t, 20 + i)).collect();
     p
@@ -74,7 +91,10 @@ fn one_vector_rc(an: &[u32], ns: &[u32], ar: &[u32], rc: u8) -> (u64, String, Ve
     reply.rcode = dnspkt::RCode(rc.into());
     let ttls = all_ttls(&reply);
     let m: u64 = ttls.iter().copied().min().unwrap_or(0) as u64;
-    let case = json!({"engine":"c06","part":"function","an":an,"ns":ns,"ar":ar,"rcode":rc});
+    let mut case = json!({"engine":"c06","part":"function","an":an,"ns":ns,"ar":ar,"rcode":rc});
+    if let Some(min) = SOA_MIN.with(|c| c.get()) {
+        case["soa_minimum"] = json!(min);
+    }
     let mut vs: Vec<Violation> = vec![];
     let mut n = 0u64;
     let rt = tokio::runtime::Builder::new_current_thread().enable_time().start_paused(true).build().expect("rt");
@@ -328,6 +348,23 @@ fn function_part(rep: &mut Report, thorough: bool) -> (u64, std::collections::BT
             .collect();
         outs.extend(more);
     }
+    // negative answers: the authority section holds SOA records whose MINIMUM field is below, at
+    // and above their TTL (NODATA and NXDOMAIN; with and without an answer / additional section)
+    for rc in [0u8, 3] {
+        for soa_min in [0u32, 1, 30, 59, 60, 61, 3600, u32::MAX] {
+            let more: Vec<(u64, String, Vec<Violation>)> = work
+                .par_iter()
+                .filter(|(a, b, _)| !b.is_empty() && a.len() <= 1)
+                .map(|(a, b, c)| {
+                    SOA_MIN.with(|m| m.set(Some(soa_min)));
+                    let (n, cls, vs) = one_vector_rc(a, b, c, rc);
+                    SOA_MIN.with(|m| m.set(None));
+                    (n, format!("soa:rc{rc}:{cls}"), vs.into_iter().map(|v| v.sig("records", "soa")).collect())
+                })
+                .collect();
+            outs.extend(more);
+        }
+    }
     let mut n = 0;
     let mut classes = std::collections::BTreeSet::new();
     let mut seen = std::collections::BTreeSet::new();
@@ -335,7 +372,7 @@ fn function_part(rep: &mut Report, thorough: bool) -> (u64, std::collections::BT
         n += k;
         classes.insert(c);
         for v in vs {
-            if seen.insert(v.oracle.clone()) || rep.violations.len() < 30 {
+            if seen.insert(format!("{}{:?}", v.oracle, v.sig.get("records"))) || rep.violations.len() < 30 {
                 rep.violation(v);
             }
         }
@@ -572,6 +609,7 @@ pub fn run(tier: &str, replay: Option<Value>) -> ! {
             }
         } else {
             let g = |k: &str| -> Vec<u32> { case[k].as_array().map(|a| a.iter().filter_map(|x| x.as_u64()).map(|x| x as u32).collect()).unwrap_or_default() };
+            SOA_MIN.with(|m| m.set(case["soa_minimum"].as_u64().map(|x| x as u32)));
             for v in one_vector_rc(&g("an"), &g("ns"), &g("ar"), case["rcode"].as_u64().unwrap_or(0) as u8).2 {
                 rep.violation(v);
             }
@@ -589,7 +627,7 @@ pub fn run(tier: &str, replay: Option<Value>) -> ! {
     rep.cov("traces_validated_against_impl", n + lq);
     rep.cov("evaluations", n + lq);
     rep.cov("distinct_nontrivial", classes.len() as u64 + agg.classes.len() as u64);
-    rep.cov("rule", "function: for response codes NOERROR, SERVFAIL, NXDOMAIN and REFUSED, TTL vectors over {0,1,2,59,60,61,2^31,2^32-1}: one section over all lists of length <=2, the other two over lists of length <=1 (thorough <=2), all three choices of the varied section; for each, the real calculate_expiry/insert/get_entry/expire under tokio's paused clock at elapsed {0, 0.999, 1, min-1, min-0.001, min, min+0.001, min+1} s x 7 probe keys, before and after an expire sweep; re-insertion histories: TTL l1 at t=0, TTL l2 (other record data) after a gap in {0, 1 ms, l1-1ms, l1, l1+1ms, l1+1s, l1+29s, l1+31s} with/without a sweep between, l1,l2 in {0,1,2,8,30,300} (thorough 9 values), looked up at 13 instants with/without sweep: every hit must be explained by one of the two insertions. live: TTL {0,1,2,60} x class {IN,CH} x UDP/TCP asked at +0, +1.5 s and just past expiry; key variants (type, DO, CD, name, class); minimum over sections. transitions = cache lookups + live queries");
+    rep.cov("rule", "function: for response codes NOERROR, SERVFAIL, NXDOMAIN and REFUSED, TTL vectors over {0,1,2,59,60,61,2^31,2^32-1}: one section over all lists of length <=2, the other two over lists of length <=1 (thorough <=2), all three choices of the varied section; for each, the real calculate_expiry/insert/get_entry/expire under tokio's paused clock at elapsed {0, 0.999, 1, min-1, min-0.001, min, min+0.001, min+1} s x 7 probe keys, before and after an expire sweep; the same for negative answers (NODATA, NXDOMAIN) whose authority records are SOA records with MINIMUM in {0,1,30,59,60,61,3600,2^32-1} -- below, at and above their TTL; re-insertion histories: TTL l1 at t=0, TTL l2 (other record data) after a gap in {0, 1 ms, l1-1ms, l1, l1+1ms, l1+1s, l1+29s, l1+31s} with/without a sweep between, l1,l2 in {0,1,2,8,30,300} (thorough 9 values), looked up at 13 instants with/without sweep: every hit must be explained by one of the two insertions. live: TTL {0,1,2,60} x class {IN,CH} x UDP/TCP asked at +0, +1.5 s and just past expiry; key variants (type, DO, CD, name, class); minimum over sections. transitions = cache lookups + live queries");
     rep.cov("exhaustive", true);
     rep.cov("function_classes", json!(classes));
     rep.cov("live_classes", json!(agg.classes));
